@@ -189,9 +189,9 @@ static int d_pmap(fx_t *F, int v, dv_t *o)
 }
 
 /* frequency vectors */
-static int d_fvec_cal(fx_t *F, int v, dv_t *o)	/* for a 3-point object */
+static int d_fvec_cal(fx_t *F, int v, dv_t *o)	/* object's own length */
 {
-    int n = dvp(o, 0, F->f3, X_BASE, 0, "ascending");
+    int n = dvp(o, 0, v == VN_A5 ? F->f5 : F->f3, X_BASE, 0, "ascending");
     n = dvp(o, n, F->fdesc, X_FAIL, 0, "descending");
     n = dvp(o, n, F->fneg, X_FAIL, 0, "negative");
     return n;
@@ -224,6 +224,19 @@ static int d_n5(fx_t *F, int v, dv_t *o)
     int n = dvi(o, 0, 3, X_BASE, 0, "3");
     n = dvi(o, n, 1, X_ALT, 0, "1");
     n = dvi(o, n, 5, X_ALT, 0, "5");
+    n = dvi(o, n, 0, X_FAIL, 0, "0");
+    n = dvi(o, n, -1, X_FAIL, 0, "-1");
+    return n;
+}
+/* count for vnacal_new_set_m_error: the vector must span the object */
+static int d_n5m(fx_t *F, int v, dv_t *o)
+{
+    int n;
+    if (v != VN_A5)
+	return d_n5(F, v, o);
+    n = dvi(o, 0, 5, X_BASE, 0, "5");
+    n = dvi(o, n, 1, X_ALT, 0, "1");
+    n = dvi(o, n, 3, X_CTX, 0, "3-not-spanning");
     n = dvi(o, n, 0, X_FAIL, 0, "0");
     n = dvi(o, n, -1, X_FAIL, 0, "-1");
     return n;
@@ -706,7 +719,7 @@ static int d_cksavepath(fx_t *F, int v, dv_t *o)
 #define RDBL(x)  do { double d_ = (x); R->failed = d_ == HUGE_VAL; } while (0)
 #define RCPX(x)  do { double complex z_ = (x); R->failed = creal(z_) == HUGE_VAL; } while (0)
 #define T(nm)   static void t_##nm(fx_t *F, int v, const cv_t *a, res_t *R)
-#define VNP     (v == 0 ? F->vnpL : F->vnpR)
+#define VNP     (*fx_vnpp(F, v))
 #define VD      (v == 0 ? F->vd : v == 1 ? F->vdf : F->vdo)
 typedef double complex *const *cm_t;
 
@@ -740,11 +753,11 @@ T(add_through) { RINT(vnacal_new_add_through(VNP, (cm_t)AP(0), AI(1), AI(2), (cm
 T(add_through_m) { RINT(vnacal_new_add_through_m(VNP, (cm_t)AP(0), AI(1), AI(2), AI(3), AI(4))); }
 T(add_mapped_matrix) { RINT(vnacal_new_add_mapped_matrix(VNP, (cm_t)AP(0), AI(1), AI(2), (cm_t)AP(3), AI(4), AI(5), AP(6), AI(7), AI(8), AP(9))); }
 T(add_mapped_matrix_m) { RINT(vnacal_new_add_mapped_matrix_m(VNP, (cm_t)AP(0), AI(1), AI(2), AP(3), AI(4), AI(5), AP(6))); }
-T(new_solve) { RINT(vnacal_new_solve(v == 0 ? F->vnpS : v == 1 ? F->vnpL : F->vnpR)); }
+T(new_solve) { RINT(vnacal_new_solve(VNP)); }
 T(new_free)
 {
-    if (v == 0) { vnacal_new_free(F->vnpL); F->vnpL = NULL; }
-    else { vnacal_new_free(F->vnpS); F->vnpS = NULL; }
+    vnacal_new_free(VNP);
+    VNP = NULL;
     R->failed = 0;
 }
 T(make_scalar_parameter) { RINT(vnacal_make_scalar_parameter(F->vcp, AZ(0))); }
@@ -806,7 +819,7 @@ T(property_get_subtree)
     R->failed = p == NULL && errno != 0;
 }
 T(property_set_subtree) { RPTR(vnacal_property_set_subtree(F->vcp, AI(0), "%s", (const char *)AP(1))); }
-T(free_vcp) { vnacal_free(F->vcp); F->vcp = NULL; F->vnpL = F->vnpS = F->vnpR = NULL; R->failed = 0; }
+T(free_vcp) { vnacal_free(F->vcp); F->vcp = NULL; for (int k = 0; k < VN_N; ++k) *fx_vnpp(F, k) = NULL; R->failed = 0; }
 T(apply) { RINT(vnacal_apply(F->vcp, AI(0), AP(1), AI(2), (cm_t)AP(3), AI(4), AI(5), (cm_t)AP(6), AI(7), AI(8), (vnadata_t *)AP(9))); }
 T(apply_m) { RINT(vnacal_apply_m(F->vcp, AI(0), AP(1), AI(2), (cm_t)AP(3), AI(4), AI(5), (vnadata_t *)AP(6))); }
 
@@ -1000,20 +1013,24 @@ static fn_t c3_table[] = {
  { "vnacal_name_to_type", RK_INT, CB_UNSPEC, 0, 0, 0, t_name_to_type, { {"name",d_typename} } },
  { "vnacal_type_to_name", RK_PTR, CB_UNSPEC, 0, 0, 0, t_type_to_name, { {"type",d_caltype} } },
  { "vnacal_new_alloc", RK_PTR, CB_ONE, EM_INVAL, 0, 0, t_new_alloc, { {"type",d_caltype}, {"rows",d_calrows}, {"columns",d_calcols}, {"frequencies",d_calnf} } },
- { "vnacal_new_set_frequency_vector", RK_INT, CB_ONE, EM_INVAL, 0, 0, t_new_set_frequency_vector, { {"frequency_vector",d_fvec_cal} } },
- { "vnacal_new_set_z0", RK_INT, CB_ONE, EM_INVAL, 0, 0, t_new_set_z0, { {"z0",d_z0} } },
- { "vnacal_new_set_m_error", RK_INT, CB_ONE, EM_INVAL, 0, 0, t_new_set_m_error, { {"frequency_vector",d_fvec5_null}, {"frequencies",d_n5}, {"sigma_nf_vector",d_sig_nf}, {"sigma_tr_vector",d_sig_tr} } },
- { "vnacal_new_set_p_tolerance", RK_INT, CB_ONE, EM_INVAL, 0, 0, t_new_set_p_tolerance, { {"tolerance",d_tol} } },
- { "vnacal_new_set_et_tolerance", RK_INT, CB_ONE, EM_INVAL, 0, 0, t_new_set_et_tolerance, { {"tolerance",d_tol} } },
- { "vnacal_new_set_iteration_limit", RK_INT, CB_ONE, EM_INVAL, 0, 0, t_new_set_iteration_limit, { {"iterations",d_iter} } },
- { "vnacal_new_set_pvalue_limit", RK_INT, CB_ONE, EM_INVAL, 0, 0, t_new_set_pvalue_limit, { {"significance",d_pvalue} } },
+#define SETTERS(v, mfl) \
+ { "vnacal_new_set_frequency_vector", RK_INT, CB_ONE, EM_INVAL, FL_VNPV, v, t_new_set_frequency_vector, { {"frequency_vector",d_fvec_cal} } }, \
+ { "vnacal_new_set_z0", RK_INT, CB_ONE, EM_INVAL, FL_VNPV, v, t_new_set_z0, { {"z0",d_z0} } }, \
+ { "vnacal_new_set_m_error", RK_INT, CB_ONE, EM_INVAL, FL_VNPV | (mfl), v, t_new_set_m_error, { {"frequency_vector",d_fvec5_null}, {"frequencies",d_n5m}, {"sigma_nf_vector",d_sig_nf}, {"sigma_tr_vector",d_sig_tr} } }, \
+ { "vnacal_new_set_p_tolerance", RK_INT, CB_ONE, EM_INVAL, FL_VNPV, v, t_new_set_p_tolerance, { {"tolerance",d_tol} } }, \
+ { "vnacal_new_set_et_tolerance", RK_INT, CB_ONE, EM_INVAL, FL_VNPV, v, t_new_set_et_tolerance, { {"tolerance",d_tol} } }, \
+ { "vnacal_new_set_iteration_limit", RK_INT, CB_ONE, EM_INVAL, FL_VNPV, v, t_new_set_iteration_limit, { {"iterations",d_iter} } }, \
+ { "vnacal_new_set_pvalue_limit", RK_INT, CB_ONE, EM_INVAL, FL_VNPV, v, t_new_set_pvalue_limit, { {"significance",d_pvalue} } }
+ SETTERS(VN_L, 0), SETTERS(VN_R, 0), SETTERS(VN_T16, FL_L0FAIL),
+ SETTERS(VN_U16, FL_L0FAIL), SETTERS(VN_S, 0), SETTERS(VN_A5, 0),
  ADDS(0),
  ADDS(1),
- { "vnacal_new_solve", RK_INT, CB_ONE, EM_DOM, 0, 0, t_new_solve, { {NULL,NULL} } },
- { "vnacal_new_solve", RK_INT, CB_ONE, EM_DOM, FL_L0FAIL, 1, t_new_solve, { {NULL,NULL} } },
- { "vnacal_new_solve", RK_INT, CB_ONE, EM_DOM, FL_L0FAIL, 2, t_new_solve, { {NULL,NULL} } },
- { "vnacal_new_free", RK_NONE, CB_UNSPEC, 0, 0, 0, t_new_free, { {NULL,NULL} } },
- { "vnacal_new_free", RK_NONE, CB_UNSPEC, 0, 0, 1, t_new_free, { {NULL,NULL} } },
+#define SOLVE(v, fl) { "vnacal_new_solve", RK_INT, CB_ONE, EM_DOM, FL_VNPV | (fl), v, t_new_solve, { {NULL,NULL} } }
+#define NFREE(v) { "vnacal_new_free", RK_NONE, CB_UNSPEC, 0, FL_VNPV, v, t_new_free, { {NULL,NULL} } }
+ SOLVE(VN_S, 0), SOLVE(VN_A3, 0), SOLVE(VN_A5, 0), SOLVE(VN_A1, 0),
+ SOLVE(VN_L, FL_L0FAIL), SOLVE(VN_R, FL_L0FAIL), SOLVE(VN_T16, FL_L0FAIL),
+ SOLVE(VN_U16, FL_L0FAIL),
+ NFREE(VN_L), NFREE(VN_S), NFREE(VN_T16), NFREE(VN_A5),
  { "vnacal_make_scalar_parameter", RK_INT, CB_ONE, EM_INVAL, 0, 0, t_make_scalar_parameter, { {"gamma",d_gamma} } },
  { "vnacal_make_vector_parameter", RK_INT, CB_ONE, EM_INVAL, 0, 0, t_make_vector_parameter, { {"frequency_vector",d_fvec5}, {"frequencies",d_n5}, {"gamma_vector",d_g5} } },
  { "vnacal_make_unknown_parameter", RK_INT, CB_ONE, EM_INVAL, 0, 0, t_make_unknown_parameter, { {"initial_guess",d_param} } },
